@@ -32,6 +32,41 @@ pub struct NoNI;
 
 use core::marker::PhantomData;
 
+/// Verification hook: lets a test harness force which arm the `std` dispatchers take.
+#[cfg(cryptocorrosion_verif)]
+pub mod verif {
+    use core::sync::atomic::{AtomicU8, AtomicUsize, Ordering};
+    /// 0 = not forced (CPUID decides), 1 = SSE2, 2 = SSSE3, 3 = SSE4.1, 4 = AVX, 5 = AVX2
+    static FORCED: AtomicU8 = AtomicU8::new(0);
+    static TAKEN: [AtomicUsize; 6] = [
+        AtomicUsize::new(0),
+        AtomicUsize::new(0),
+        AtomicUsize::new(0),
+        AtomicUsize::new(0),
+        AtomicUsize::new(0),
+        AtomicUsize::new(0),
+    ];
+    pub fn force_backend(b: u8) {
+        assert!(b <= 5);
+        FORCED.store(b, Ordering::SeqCst)
+    }
+    #[inline(always)]
+    pub fn forced() -> u8 {
+        FORCED.load(Ordering::Relaxed)
+    }
+    #[inline(always)]
+    pub fn note_taken(b: u8) {
+        TAKEN[b as usize].fetch_add(1, Ordering::Relaxed);
+    }
+    pub fn taken_counts() -> [usize; 6] {
+        let mut r = [0; 6];
+        for (o, t) in r.iter_mut().zip(TAKEN.iter()) {
+            *o = t.load(Ordering::Relaxed);
+        }
+        r
+    }
+}
+
 #[derive(Copy, Clone)]
 pub struct SseMachine<S3, S4, NI>(PhantomData<(S3, S4, NI)>);
 impl<S3: Copy, S4: Copy, NI: Copy> Machine for SseMachine<S3, S4, NI>
@@ -282,6 +317,22 @@ macro_rules! dispatch {
             unsafe fn impl_sse2($($arg: $argty),*) -> $ret {
                 fn_impl($crate::x86_64::SSE2::instance(), $($arg),*)
             }
+            #[cfg(cryptocorrosion_verif)]
+            {
+                let forced = $crate::x86_64::verif::forced();
+                if forced != 0 {
+                    $crate::x86_64::verif::note_taken(forced);
+                    return unsafe {
+                        match forced {
+                            1 => impl_sse2($($arg),*),
+                            2 => impl_ssse3($($arg),*),
+                            3 => impl_sse41($($arg),*),
+                            4 => impl_avx($($arg),*),
+                            _ => impl_avx2($($arg),*),
+                        }
+                    };
+                }
+            }
             unsafe {
                 if is_x86_feature_detected!("avx2") {
                     impl_avx2($($arg),*)
@@ -346,6 +397,16 @@ macro_rules! dispatch_light128 {
             unsafe fn impl_sse2($($arg: $argty),*) -> $ret {
                 fn_impl($crate::x86_64::SSE2::instance(), $($arg),*)
             }
+            #[cfg(cryptocorrosion_verif)]
+            {
+                let forced = $crate::x86_64::verif::forced();
+                if forced != 0 {
+                    $crate::x86_64::verif::note_taken(forced);
+                    return unsafe {
+                        if forced >= 4 { impl_avx($($arg),*) } else { impl_sse2($($arg),*) }
+                    };
+                }
+            }
             unsafe {
                 if is_x86_feature_detected!("avx") {
                     impl_avx($($arg),*)
@@ -403,6 +464,16 @@ macro_rules! dispatch_light256 {
             #[target_feature(enable = "sse2")]
             unsafe fn impl_sse2($($arg: $argty),*) -> $ret {
                 fn_impl($crate::x86_64::SSE2::instance(), $($arg),*)
+            }
+            #[cfg(cryptocorrosion_verif)]
+            {
+                let forced = $crate::x86_64::verif::forced();
+                if forced != 0 {
+                    $crate::x86_64::verif::note_taken(forced);
+                    return unsafe {
+                        if forced >= 4 { impl_avx($($arg),*) } else { impl_sse2($($arg),*) }
+                    };
+                }
             }
             unsafe {
                 if is_x86_feature_detected!("avx") {
